@@ -49,7 +49,8 @@
 From Coq Require Import List NArith ZArith Bool.
 Import ListNotations.
 Require Import XV.Str XV.Json XV.TextFormat XV.Forest XV.Path XV.XmlFmt XV.Projections
-               XV.XmlFmtProofs1 XV.XmlFmtProofs2 XV.XmlFmtProofsR2 XV.XmlFmtProofs3 XV.XmlFmtProofs4 XV.XmlFmtProofs5 XV.XmlFmtProofs9 XV.XmlFmtProofsF XV.XmlFmtProofsT1.
+               XV.XmlFmtProofs1 XV.XmlFmtProofs2 XV.XmlFmtProofsR2 XV.XmlFmtProofs3 XV.XmlFmtProofs4 XV.XmlFmtProofs5 XV.XmlFmtProofs9 XV.XmlFmtProofsF XV.XmlFmtProofsT1
+               XV.Differ XV.WF XV.Render XV.PrefixProofs XV.XmlFmtDiffer3 XV.XmlFmtDiffer.
 Require XV.Placeholder XV.PlaceholderUndo XV.DMP.
 Local Open Scope N_scope.
 
@@ -74,6 +75,44 @@ Theorem C10_reject_attrs_partial :
   xequiv_r (ws_text c) (reject T) L.
 Proof. intros c o rootns gs L T _. exact (reject_format_attrs c o rootns gs L T). Qed.
 Print Assumptions C10_reject_attrs_partial.
+
+(* FOR THE DIFFER'S OWN SCRIPTS the run-level premises (fscript_ok, names_plain, run_ok, iact_plain) are THEOREMS
+   (XV.XmlFmtDiffer): the statement below has premises about the two documents, the matching and the configuration only.
+     L, R                 the two PREPARED documents as forests (comments removed); m any valid matching of them;
+     lns, rns             the namespace declarations of the two root elements; pro the namespace prologue Differ.diff
+                          emits for them (InsertNamespace / DeleteNamespace actions);
+     script               pro ++ out (gen_script [] R rootR L rootL m): the model of Differ.diff (XV.Differ) for that matching;
+     ns_decl_okb, doc_names_okb   the namespace / printable-name conditions of PrefixProofs (C13): every namespace used is
+                          declared on a root, no prefix is bound to two URIs, names are printable XPath names;
+     doc_okb f            every node slot of f is an element; tags, attribute names and values, texts and tails contain no
+                          private-use character; tags and attribute names are not in the diff namespace (XmlFmtDiffer3);
+     text_size R rootR    the number of characters of all texts and tails of R; only with use_replace: at most 6393 (one
+                          private-use code point per replaced segment is then always available).
+   Proof idea for run_ok: the breadth-first phase visits every right node once; the text / tail update and the rename
+   of a visit aim at the node's partner; partners of different nodes differ (XmlFmtDiffer2.gen_script_parts), so no node
+   is updated twice, and a node that has not been updated yet still carries its plain original text (XmlFmtDiffer1.J). *)
+Theorem C10_reject_differ :
+  forall (c : cfg) (o : oracle) (pe : penv) (L R : forest) (rootL rootR : id) (lns rns : nsmap) (m : list (id * id)) (pro : list iact),
+  c_tt c = [] ->
+  wf_forest L rootL -> wf_forest R rootR -> valid_matching L R rootL rootR m ->
+  ns_prologue lns rns = Some pro ->
+  ns_decl_okb pe lns rns L rootL R rootR = true -> doc_names_okb pe L rootL = true -> doc_names_okb pe R rootR = true ->
+  doc_okb L = true -> doc_okb R = true ->
+  (c_replace c = true -> text_size R rootR <= 6393) ->
+  let script := pro ++ out (gen_script [] R rootR L rootL m) in
+  let W := remove_comments (doc_tree L rootL) in
+  exists gs T, render_script pe rootL L script = Some gs /\ xml_format c o lns Placeholder.ph_init gs W = FOk T /\
+               xequiv (ws_text c) (erase_attrs (reject T)) (erase_attrs W).
+Proof. intros c o pe L R rootL rootR lns rns m pro _. exact (differ_reject c o pe L R rootL rootR lns rns m pro). Qed.
+Print Assumptions C10_reject_differ.
+
+(* non-vacuity: <a><b>xy</b>t<c/></a> -> <a k="1"><b>xz</b>t<d/></a>, matching a-a, b-b, c-d: every premise by computation *)
+Example C10_reject_differ_example :
+  (wf_forest dx_L 0%nat /\ wf_forest dx_R 0%nat /\ valid_matching dx_L dx_R 0%nat 0%nat dx_m /\ ns_prologue [] [] = Some [] /\
+   ns_decl_okb dx_pe [] [] dx_L 0%nat dx_R 0%nat = true /\ doc_names_okb dx_pe dx_L 0%nat = true /\ doc_names_okb dx_pe dx_R 0%nat = true /\
+   doc_okb dx_L = true /\ doc_okb dx_R = true /\ text_size dx_R 0%nat <= 6393).
+Proof. exact dx_premises. Qed.
+Print Assumptions C10_reject_differ_example.
 
 (* the handlers never change what rejection reads, one action at a time (the refinement step); the maker only grows *)
 Theorem C10_reject_step :
